@@ -9,6 +9,7 @@ import YaraModel.Lemmas.ReAtomPos
 import YaraModel.Lemmas.ReAtomEntry
 import YaraModel.Lemmas.ReScan
 import YaraModel.Lemmas.ReSplit
+import YaraModel.Lemmas.ReCompleteHex
 namespace YaraModel.C02
 open YaraModel.Re
 
@@ -213,6 +214,69 @@ example : HexAst (.cat (.lit 0x41) (.cat (.alt (.lit 0x42) (.cat (.masked 0x03 0
 open YaraModel.ReVm YaraModel.ReEmit in
 /-- instance: `41 ( 42 | ?3 44 ) [1-2] ~45` on `41 13 44 00 00 46`: the VM run on the emitted code reports lengths 6 and 5 -/
 example : exec { code := (emitCode false (.cat (.lit 0x41) (.cat (.alt (.lit 0x42) (.cat (.masked 0x03 0x0F) (.lit 0x44))) (.cat (.rangeAny 1 2 false) (.notLit 0x45))))).toArray, entry := 0, buf := #[0x41, 0x13, 0x44, 0x00, 0x00, 0x46], start := 0, fl := { exhaustive := true, dotall := true } } = .done 6 [5, 6] := by decide
+
+open YaraModel.ReVm YaraModel.ReEmit in
+/-- `vm_complete_hex_partial`: VM COMPLETENESS for hex patterns, forward code — the converse of `vm_sound`.  `HexG r`: the
+    hex ASTs in which the FIRST branch of every alternative begins with a byte-like token (byte, `??`, nibble mask, `~`) or
+    a jump that may skip a byte, recursively through nested alternatives — every AST the hex grammar produces
+    (`tokens : token | token token | token token_sequence token`: a branch begins and ends with a byte or a nested alternative).
+    For ALL such patterns, buffers, start positions o = `start` and every match [o, o + L) of the pattern
+    (`Re.Matches .. r start (start + L)`) with L within the scan window (RE_SCAN_LIMIT: L ≤ 1024): the exhaustive forward run of
+    the executable model of `yr_re_exec` (Model/ReVm.lean `exec`: the fiber list with its de-duplication, `_yr_re_fiber_sync`
+    with its executed-split set, the per-position pass) on `emitCode false r` reports the length L.
+    How errors are excluded: the hypothesis `exec .. = .done m c` — the run returned a result, i.e. NO error path was taken:
+    the fiber list never exceeded the limit (the model's `outOfFuel` outcome = ERROR_TOO_MANY_RE_FIBERS and the fuel bounds
+    of sync / pass / loop); no stack-depth error exists for hex code (no REPEAT_START).  Further hypotheses: code below 32000
+    bytes (int16 offsets), at most 256 alternatives (`(emit false r 0).2` = number of split ids; yara refuses more than
+    RE_MAX_SPLIT_ID = 128), byte mode, not scan mode, RE_FLAGS_EXHAUSTIVE.
+    Invariant of the proof (Lemmas/ReComplete.lean, ReCompleteHex.lean): `AccN` — from a stopped fiber there is a path of
+    consuming steps to MATCH through fibers that every later top-level sync call is bound to produce; the pass keeps the
+    successors of every accepted fiber (de-duplication only drops EQUAL fibers), so the path survives every position.  The
+    executed-split set never kills a fiber of the path: split ids are numbered in emission order, hex code only branches
+    forwards, and the first branch of an alternative stops inside its own code (`sync_fresh`).
+    `_partial`: statement (a) in full asks for every `HexAst`; NOT covered are alternatives whose first branch begins with a
+    degenerate jump `[0-0]` (then the second branch may be killed at a split that the first one already executed — the
+    fibers are duplicates, but the proof of that is the general visited-set argument); the grammar never produces them.
+    Also not covered: matches longer than the 1024-byte window (not reported by design), wide mode, non-exhaustive mode
+    (which length the forward verification run reports), runs entering at an atom's instruction. -/
+theorem vm_complete_hex_partial (r : Re) (hg : HexG r) (hsz : (emit false r 0).1.length < 32000) (hid : (emit false r 0).2 ≤ 256)
+    (buf : Bytes) (start : Nat) (hst : start ≤ buf.size)
+    (fl : VmFlags) (hw : fl.wide = false) (hb : fl.backwards = false) (hsc : fl.scan = false) (hx : fl.exhaustive = true)
+    (fuel : Nat) (m : Int) (c : List Nat)
+    (h : exec { code := (emitCode false r).toArray, entry := 0, buf := buf, start := start, fl := fl, syncFuel := fuel } = .done m c)
+    (L : Nat) (hL : L ≤ 1024) (hm : Re.Matches (specFlags fl) buf r start (start + L)) : L ∈ c :=
+  vm_complete_fwd r hg hsz hid buf start hst fl hw hb hsc hx fuel m c h L hL hm
+
+open YaraModel.ReVm YaraModel.ReEmit in
+/-- `vm_complete_hex_backward_partial`: the mirrored statement for the BACKWARD code (the bytes before the atom): run with
+    RE_FLAGS_BACKWARDS from `start`, every match [start - L, start) of the pattern with L ≤ 1024 has its length reported by the
+    exhaustive run on `emitCode true r` that returns without error.  `HexG (rev r)`: the mirrored pattern has the grammar's
+    shape (the first branch of every alternative of `r` ENDS with a byte-like token).  Same proof through the
+    direction-generic path lemma `acc_hex` (the backward code of `r` is the forward code of `rev r`). -/
+theorem vm_complete_hex_backward_partial (r : Re) (hg : HexG (rev r)) (hsz : (emit true r 0).1.length < 32000)
+    (hid : (emit true r 0).2 ≤ 256) (buf : Bytes) (start : Nat) (hst : start ≤ buf.size)
+    (fl : VmFlags) (hw : fl.wide = false) (hb : fl.backwards = true) (hsc : fl.scan = false) (hx : fl.exhaustive = true)
+    (fuel : Nat) (m : Int) (c : List Nat)
+    (h : exec { code := (emitCode true r).toArray, entry := 0, buf := buf, start := start, fl := fl, syncFuel := fuel } = .done m c)
+    (L : Nat) (hL : L ≤ 1024) (hLs : L ≤ start) (hm : Re.Matches (specFlags fl) buf r (start - L) start) : L ∈ c :=
+  vm_complete_bwd r hg hsz hid buf start hst fl hw hb hsc hx fuel m c h L hL hLs hm
+
+open YaraModel.ReEmit in
+/-- instance: `41 ( 42 | ?3 44 ) [1-2] ~45` has the grammar's shape, and so has its mirror image -/
+example : HexG (.cat (.lit 0x41) (.cat (.alt (.lit 0x42) (.cat (.masked 0x03 0x0F) (.lit 0x44))) (.cat (.rangeAny 1 2 false) (.notLit 0x45)))) ∧
+    HexG (rev (.cat (.lit 0x41) (.cat (.alt (.lit 0x42) (.cat (.masked 0x03 0x0F) (.lit 0x44))) (.cat (.rangeAny 1 2 false) (.notLit 0x45))))) :=
+  ⟨.seq (.byte _) (.seq (.alt (.byte _) (.seq (.mask _ _) (.byte _)) (.byte _)) (.seq (.jump 1 2 (by decide) (by decide)) (.notByte _))),
+   .seq (.seq (.seq (.notByte _) (.jump 1 2 (by decide) (by decide))) (.alt (.byte _) (.seq (.byte _) (.mask _ _)) (.byte _))) (.byte _)⟩
+
+open YaraModel.ReVm YaraModel.ReEmit in
+/-- the hypotheses of `vm_complete_hex_partial` are satisfiable together, non-trivially: `41 ( 42 | ?3 44 ) [1-2] ~45` on
+    `41 13 44 00 00 46` — the run returns `.done 6 [5, 6]` (no error), the pattern matches [0, 5) through the second branch
+    of the alternative and a one-byte jump, and the theorem yields 5 ∈ [5, 6] -/
+example : 5 ∈ [5, 6] :=
+  vm_complete_hex_partial (.cat (.lit 0x41) (.cat (.alt (.lit 0x42) (.cat (.masked 0x03 0x0F) (.lit 0x44))) (.cat (.rangeAny 1 2 false) (.notLit 0x45))))
+    (.seq (.byte _) (.seq (.alt (.byte _) (.seq (.mask _ _) (.byte _)) (.byte _)) (.seq (.jump 1 2 (by decide) (by decide)) (.notByte _))))
+    (by decide) (by decide) #[0x41, 0x13, 0x44, 0x00, 0x00, 0x46] 0 (by decide) { exhaustive := true, dotall := true } rfl rfl rfl rfl
+    100000 6 [5, 6] (by decide) 5 (by decide) ((Re.ends_iff_Matches _ _ _ _ _).1 (by decide))
 
 open YaraModel.ReAtoms YaraModel.ReEmit in
 /-- `reAtoms_cover`: the atoms extracted for a hex string cover its matches, at the positions verification starts from.
